@@ -697,6 +697,73 @@ def dict_special(rng):
     return m, v
 
 
+def twins_special(rng):
+    """collections in which values that are == but of different types (0 False 0.0, 1 True 1.0, 2 2.0) sit side by
+    side, under matchers that tell them apart (IsInstance) or do not (Equals, LessThan): a combinator that treats
+    == elements as one element, or picks 'the' element by ==, gives a wrong verdict only here"""
+    def flav(n):
+        return rng.choice([I(n), F(2 * n)] + ([T(n == 1)] if n in (0, 1) else []))
+    tyof = {"i": "int", "t": "bool", "f": "float"}
+    xs = []
+    if rng.random() < 0.6:      # every flavour of one number, perhaps one more value
+        n = rng.choice([0, 1, 1, 2])
+        xs = [I(n), F(2 * n)] + ([T(n == 1)] if n in (0, 1) else [])
+        if rng.random() < 0.3:
+            xs.pop(rng.randrange(len(xs)))
+        if rng.random() < 0.4:
+            xs.append(flav((n + 1) % 3))
+        rng.shuffle(xs)
+    else:
+        for _ in range(rng.choice([1, 2, 2, 3, 3, 4])):
+            x = flav(rng.choice([0, 1, 1, 2]))
+            if x not in xs:
+                xs.append(x)
+
+    def leaf():
+        return rng.choice([
+            ["IsInstance", [rng.choice(["int", "bool", "float"])]], ["IsInstance", [rng.choice(["int", "bool", "float"])]],
+            ["IsInstance", ["int", "float"]], ["Not", ["IsInstance", [rng.choice(["bool", "float"])]]],
+            ["Equals", flav(rng.choice([0, 1, 2]))], ["LessThan", F(rng.choice([1, 3]))], ["Always"],
+            ["MatchesAll", rng.random() < 0.5, [["IsInstance", [rng.choice(["int", "float"])]], ["Equals", I(1)]]]])
+
+    def exact(x):           # matches x and nothing else in xs (the members of xs are distinct as typed values)
+        t = ["IsInstance", [tyof[x[0]]]]
+        if x[0] == "i":
+            t = ["MatchesAll", False, [t, ["Not", ["IsInstance", ["bool"]]]]]
+        return ["MatchesAll", rng.random() < 0.5, [t, ["Equals", twin(rng, x) if rng.random() < 0.5 else x]]]
+    kind = rng.choice(["AllMatch", "AllMatch", "AnyMatch", "Listwise", "Setwise", "Setwise", "SameMembers", "Contains",
+                       "Rev", "Dict"])
+    v = L(xs)
+    if kind in ("AllMatch", "AnyMatch"):
+        m = [kind, leaf() if rng.random() < 0.4 else ["IsInstance", rng.sample(["int", "bool", "float"], rng.choice([1, 1, 2]))]]
+    elif kind == "Listwise":
+        m = ["MatchesListwise", rng.random() < 0.4, [exact(x) if rng.random() < 0.7 else leaf() for x in xs]]
+    elif kind == "Setwise":
+        ms = [exact(x) for x in xs]
+        rng.shuffle(ms)
+        if ms and rng.random() < 0.2:
+            ms[rng.randrange(len(ms))] = exact(flav(rng.choice([0, 1, 2])))
+        m = ["MatchesSetwise", 0, ms]
+    elif kind == "SameMembers":
+        e = [twin(rng, x) if rng.random() < 0.6 else x for x in xs]
+        rng.shuffle(e)
+        if e and rng.random() < 0.3:
+            e[rng.randrange(len(e))] = flav(rng.choice([0, 1, 2]))
+        m = ["SameMembers", e]
+    elif kind == "Contains":
+        m = ["Contains", flav(rng.choice([0, 1, 2]))]
+    elif kind == "Rev":
+        m = ["AfterPreprocessing", 5, rng.random() < 0.5, ["MatchesListwise", False, [exact(x) for x in xs[::-1]]]]
+    else:
+        m, v = [rng.choice(["MatchesDict", "ContainsDict", "ContainedByDict"]), [[S("k"), ["AllMatch", leaf()]]]], D([[S("k"), v]])
+    r = rng.random()
+    if r < 0.15:
+        m = ["Not", m]
+    elif r < 0.25:
+        m = ["Annotate", 3, m]
+    return m, v
+
+
 def members_special(rng):
     """SameMembers where sorting cannot stand in for comparing members: members that < orders only partially
     (frozensets), members equal across types (1 / True / 1.0), members of several types; the expected list is a
@@ -841,6 +908,13 @@ F13_WITNESS = {"m": ["MatchesSetwise", 0, [["MatchesAny", [["Equals", I(1)], ["E
                "v": L([I(1), I(2)]), "leafdefs": [], "accept": []}
 
 
+def pick(rng, items, want):
+    """a seeded random subset of the given size, in the original order"""
+    if len(items) <= want:
+        return items
+    return [items[i] for i in sorted(rng.sample(range(len(items)), want))]
+
+
 def generate(rng, tier):
     quick = tier == "quick"
     cases = [F13_WITNESS]
@@ -904,6 +978,8 @@ def generate(rng, tier):
         (["AfterPreprocessing", 4, False, ["Equals", I(2)]], T(True)), (["AfterPreprocessing", 4, True, ["Equals", I(1)]], F(0)),
         (["Raises", None], RET(T(False))), (["Raises", None], RET(F(0))),
         (["MatchesException", True, [2], [T(True)], None], X(2, [I(1)])),
+        (["AllMatch", ["IsInstance", ["bool"]]], L([T(True), I(1)])), (["AnyMatch", ["IsInstance", ["float"]]], L([I(1), F(2)])),
+        (["AllMatch", ["IsInstance", ["int"]]], L([T(False), F(0)])),
         # members that are only partially ordered: the same members in another order
         (["SameMembers", [Z([1, 2]), Z([3])]], L([Z([3]), Z([1, 2])])),
         (["SameMembers", [Z([1, 2]), Z([3])]], L([Z([3]), Z([1])])),
@@ -931,21 +1007,16 @@ def generate(rng, tier):
         d1 += list(enum_cases(fam, 1, None))
     for e in [["Raises", None]] + [["Raises", x] for x in enum("EXC", 1, 4)]:
         d1 += [(e, v) for v in CALL_ALL]
-    stride = max(1, len(d1) // 2800) if quick else 1
-    off = rng.randrange(stride)
-    for k, (m, v) in enumerate(d1):
-        if k % stride == off:
-            cases.append(mk_case(m, v, ENUM_LEAFDEFS))
+    # (a seeded random subset, not every n-th pair: a stride that shares a factor with the number of values of a
+    # family would pair every expression of that family with the same value)
+    for m, v in pick(rng, d1, 2800 if quick else len(d1)):
+        cases.append(mk_case(m, v, ENUM_LEAFDEFS))
     # exhaustive to depth 2 over three leaves per family (subsampled in the quick tier)
     d2 = []
     for fam in ("INT", "LIST_INT", "DICT", "DICT_NUM", "DICT_LIST", "LIST_LIST"):
         d2 += list(enum_cases(fam, 2, 3))
-    want = 900 if quick else 60000
-    stride = max(1, len(d2) // want)
-    off = rng.randrange(stride)
-    for k, (m, v) in enumerate(d2):
-        if k % stride == off:
-            cases.append(mk_case(m, v, ENUM_LEAFDEFS))
+    for m, v in pick(rng, d2, 900 if quick else 60000):
+        cases.append(mk_case(m, v, ENUM_LEAFDEFS))
     # MatchesSetwise around the finding
     for _ in range(250 if quick else 4000):
         m, v = setwise_special(rng)
@@ -953,6 +1024,10 @@ def generate(rng, tier):
     # dict matchers decided by their key sets, falsy values everywhere, keys that collide across types
     for _ in range(450 if quick else 6000):
         m, v = dict_special(rng)
+        cases.append(mk_case(m, v))
+    # == values of different types side by side
+    for _ in range(250 if quick else 4000):
+        m, v = twins_special(rng)
         cases.append(mk_case(m, v))
     # SameMembers over partially ordered / cross-type members
     for _ in range(150 if quick else 3000):
@@ -967,7 +1042,7 @@ def generate(rng, tier):
         m, v = nested_special(rng)
         cases.append(mk_case(m, v))
     # random, depth <= 4
-    for _ in range(1700 if quick else 40000):
+    for _ in range(1550 if quick else 40000):
         st = St(rng)
         v = rand_value(rng)
         m = gm(rng, rng.choice([1, 2, 2, 3, 3, 4]), [v], st, top=True)
